@@ -145,6 +145,11 @@ func C13(x *Ctx, r *core.Result) {
 	d := r.Rule("R13d", "type exclusivity: the first non-whitespace byte of any input a typed reader accepts is classified by tokenTypes as that reader's type")
 	x.exclusivity(r, d)
 	r.CheckFloor(d, 10)
+	e13 := r.Rule("R13e", "the container readers and null (shared with R03c): the handler machines accept the literal null, so ReadObject / ReadArray re-examine the first token whenever the container came out empty and refuse null — a successful return is reachable only behind `container non-empty`, a failed peek or `first token != null`, whatever the reader's history")
+	for _, n := range []string{"ValueReader.ReadObject", "ValueReader.ReadArray"} {
+		x.nullGuard(r, e13, n)
+	}
+	r.CheckFloor(e13, 2)
 	r.Exhaustive = true
 	r.Explain = "tables compared entry by entry; token functions and literal machines by product construction; exclusivity from the first-byte sets of the extracted models"
 }
